@@ -25,7 +25,12 @@ Definition pmbits (G : graph) (idxs : list nat) : list bool := flat_map (fun i =
    hypothesis of C16_every_occurrence_is_recognised *)
 Definition fcase (G : graph) (idxs : list nat) (e1 e2 : list bool) : bool := beq (fgbits G idxs) e1 && beq (pmbits G idxs) e2 && gwfb G.
 """
-FAMILY = ["Cn1cccc1O", "CC(=O)n1cccc1O", "Oc1cccn1-c1ccccc1", "COc1ccc(C)n1C",      # hydroxypyrroles with a substituted ring nitrogen
+FAMILY = [# more than 24 atoms with a ring hetero atom next to an exocyclic C=O / OR (lactam, oxazolidinone, cyclic carbonate, THP acetal)
+          "O=C1OCCN1c1ccc(cc1)C(=O)NCCc1ccccc1CCCC", "CCCCCCCCCCCCCCCCCCN1CCCC1=O", "O=C1OCC(CCCCCCCCCCCCCCCCCC)O1", "CCCCCCCCCCCCCCCCCCOC1CCCCO1",
+          "O=C1CCCN1CCCCCCCCCCCCc1ccccc1", "CC(C)CCCCCCCCCCCCCCN1C(=O)OCC1C",
+          # quinoid rings (conjugated, not aromatic) carrying OH / NH2
+          "O=C1C=CC(=O)C(O)=C1", "O=C1C=C(O)C(=O)c2ccccc12", "NC1=CC(=O)C=CC1=O", "CNC1=CC(=O)C=CC1=O", "OC1=CC(=O)C=CC1=O",
+          "Cn1cccc1O", "CC(=O)n1cccc1O", "Oc1cccn1-c1ccccc1", "COc1ccc(C)n1C",      # hydroxypyrroles with a substituted ring nitrogen
           "O[c+]1cccccc1", "C1OCO1", "CC(CCCc1ccccc1)c1cc2nc(O)c3c(c2cc1O)CCCC3", "Oc1ccccc1", "COc1ccccc1", "OC1CCCCC1", "CC(=O)OC(C)=O", "COC(=O)OC", "CC(=O)OO", "OCO", "COCOC", "COCO",
           "C1COCO1", "C1OCOCO1", "O=C1OCCO1", "CC(=O)N", "NC(=O)O", "NC(N)=O", "CC(=O)SC", "CC(O)=S", "C=CO", "CC(C)=O", "CC=O", "CC#N", "CN", "Nc1ccccc1",
           "ON", "O=NO", "C[N+](=O)[O-]", "CSC", "OC1=CC=CN1", "Oc1ccc[nH]1", "OC(O)O", "OC(O)(O)C", "C1CO1", "O1C=CC=C1", "c1ccoc1", "OB(O)c1ccccc1",
@@ -79,6 +84,18 @@ def run(ctx):
                 if ok and not occ:
                     atoms = [x[0] for x in match if isinstance(x, tuple)]
                     kind = "non-injective-match" if len(set(atoms)) < len(atoms) else "ring-closure-unchecked"
+                    # the two known mechanisms accept something that is no embedding of the pattern's GRAPH.  When the graph (elements
+                    # and connectivity, bond types ignored) does occur at the atom, the acceptance is about bond types: another defect.
+                    try:
+                        q = Chem.RWMol(p)
+                        for a in q.GetAtoms():
+                            q.ReplaceAtom(a.GetIdx(), Chem.AtomFromSmarts("[#%d]" % a.GetAtomicNum()))
+                        for b in q.GetBonds():
+                            q.ReplaceBond(b.GetIdx(), Chem.BondFromSmarts("~"))
+                        if any(i in mt for mt in m.GetSubstructMatches(q.GetMol(), uniquify=False, maxMatches=2000)):
+                            kind = "match-ignores-bond-types"
+                    except Exception:
+                        pass
                     ctx.fail(kind, {"smiles": smi, "atom": i, "pattern": Chem.MolToSmiles(p)}, {"matched_atoms": atoms})
                 elif occ and not ok:
                     ctx.fail("occurrence-not-found", {"smiles": smi, "atom": i, "pattern": Chem.MolToSmiles(p)}, {})
@@ -93,6 +110,23 @@ def run(ctx):
                 if b1 != b0:
                     diff = [n for n, x, y in zip(names, b0, b1) if x != y]
                     ctx.fail("answer-depends-on-atom-numbering", {"smiles": smi, "atom": i, "order": order}, {"groups": diff})
+        # the same molecule re-read from differently written SMILES: other atom order AND other neighbour / bond order (RenumberAtoms
+        # keeps the order of the bonds)
+        for _ in range(3):
+            try:
+                rs = Chem.MolToSmiles(m, doRandom=True, canonical=False)
+                m3 = Chem.MolFromSmiles(rs)
+                match = m3.GetSubstructMatch(m) if m3 is not None and m3.GetNumAtoms() == m.GetNumAtoms() else ()
+            except Exception:
+                match = ()
+            if len(match) != m.GetNumAtoms():
+                continue
+            for i, b0 in zip(idxs, [bits[j * len(names):(j + 1) * len(names)] for j in range(len(idxs))]):
+                b1 = [bool(is_functional_group(m3, n, match[i])) for n in names]
+                ctx.evaluations += len(names)
+                if b1 != b0:
+                    diff = [n for n, x, y in zip(names, b0, b1) if x != y]
+                    ctx.fail("answer-depends-on-atom-numbering", {"smiles": smi, "atom": i, "rewritten": rs}, {"groups": diff})
         try:
             exprs.append("fcase %s %s %s %s" % (gen_data.mol_graph(m), clist(idxs, cnat), clist(bits, cbool), clist(pbits, cbool)))
             meta.append((smi, idxs))
